@@ -156,9 +156,17 @@ class BaseValidator(object):
           :py:meth:`cutplace.checks.AbstractCheck.check_at_end` fails.
         """
         if not self._is_closed:
+            first_error = None
             try:
+                # Ask every check, even if an earlier one already failed; report the first failure.
                 for check_name in self.cid.check_names:
-                    self.cid.check_map[check_name].check_at_end(self.location)
+                    try:
+                        self.cid.check_map[check_name].check_at_end(self.location)
+                    except errors.CheckError as error:
+                        if first_error is None:
+                            first_error = error
+                if first_error is not None:
+                    raise first_error
             finally:
                 for check in self.cid.check_map.values():
                     check.cleanup()
